@@ -181,8 +181,9 @@ class Runner:
             for f, (fn, err) in zip(chunk, loaded):
                 self.forms[f] = (fn, impl.Graph(fn) if fn is not None else None, err)
 
-    def evaluate(self, shape, idx):
+    def evaluate(self, shape, idx, c_op=None):
         """-> dict with the three outcomes and the two skeletons"""
+        c_op = c_op or globals()["c_op"]
         from onnxscript import tensor as ostensor
         X = np.arange(int(np.prod(shape)), dtype=np.int64).reshape(shape)
         src, vals = impl.expr_source(idx)
@@ -286,12 +287,12 @@ EVALS = ["np_agrees", "graph_agrees false", "graph_agrees true", "skel_agrees fa
          "eager_agrees false", "eager_agrees true", "eskel_agrees false", "eskel_agrees true"]
 
 
-def _coq_shards(ctx, bodies, par=8, timeout=900):
+def _coq_shards(ctx, bodies, par=8, timeout=900, req=None):
     """Like ctx.coq_eval_shards (whose temp-file naming rewrites '-' in the scratch *directory* name and then fails
     to open the file); files are named by shard number inside ctx.cases_dir."""
     from concurrent.futures import ThreadPoolExecutor
     hdr = "From Coq Require Import List ZArith String Bool.\nImport ListNotations.\n"
-    hdr += "".join(f"Require Import {r}.\n" for r in REQ)
+    hdr += "".join(f"Require Import {r}.\n" for r in (req or REQ))
     hdr += "Set Printing Width 1000000.\nSet Printing Depth 1000000.\n"
     base = getattr(ctx, "_c11_shard", 0)
     ctx._c11_shard = base + len(bodies)
@@ -540,8 +541,13 @@ def run(ctx):
     ctx.assume("dimensions fit int64 (d <= INT64_MAX); the operands the converter emits are int64 constants")
     ctx.assume("eager mode is run with a recording evaluator that delegates to onnxruntime through "
                "evaluator._prepare_model_and_inputs_for_eager with single-threaded sessions")
-    ctx.assume("tensor-valued indices of rank >= 2, Ellipsis, None/newaxis, boolean masks and step 0 are outside the property's "
-               "quantifier and are not generated")
+    ctx.assume("Ellipsis, None/newaxis, boolean masks, tensor-valued indices of rank >= 3 and step 0 are outside the property's "
+               "quantifier and are not generated; rank-2 tensor indices are (stream adv-forms)")
+    ctx.assume("NumPy's rule for combining advanced and basic indexing (broadcast of all advanced indices; block at the first advanced "
+               "index when they are adjacent, in front otherwise) as transcribed in coq/Index/AdvSpec.v np_arr; agreement with NumPy is "
+               "measured on every case of the adv-forms stream, good and bad forms alike")
+    ctx.assume("ONNX Gather with an index tensor of rank r = Gather with the flattened index followed by the reshape of that axis into the "
+               "index shape (Gather-13: output rank q + r - 1, index axes in place of the gathered axis); measured on onnxruntime per case")
     ctx.check_props()
     state = {"n": 0, "outcomes": collections.Counter(), "diff": collections.Counter(), "identity_refused": 0,
              "pending": [], "diffs": [], "streams": {}, "skel_errors": [], "eskel_errors": []}
@@ -559,6 +565,10 @@ def run(ctx):
         if thorough:
             process(ctx, runner, list(gen_axis_exhaustive(rank_pos=((2, 1), (3, 2), (3, 1)))), "axis-exhaustive-inner", state)
             process(ctx, runner, list(gen_pairs()), "pairs", state)
+        import sys
+        from harness import c11_adv
+        adv_cover = c11_adv.run(ctx, sys.modules[__name__], runner)
+        state["streams"]["adv-forms"] = adv_cover["cases"]
     finally:
         runner.close()
     n = state["n"]
@@ -578,7 +588,8 @@ def run(ctx):
                    "NumPy on X = arange; streams: corpus (witnesses of the Coq statements, past failures), documented forms, exhaustive one-axis sweep of the "
                    "property's quantifier (start/stop in {None,-d-1..d+1}, step in {None,1,2,-1,-2}, ints -d-1..d as literal and rank-0 "
                    "tensor, d=1..4), all kind-tuples of length<=3 with a tensor-valued component, seeded random tuples on rank 1-3 "
-                   "(dims 1-4), shapes with 0 dims; thorough adds the one-axis sweep on inner axes, all pairs of a reduced alphabet, "
+                   "(dims 1-4), shapes with 0 dims, adv-forms: every kind tuple of length<=4 over {int, ':', slice, rank-0/1/2 tensor} with a "
+                   "tensor-valued component (any number of tensor indices; negative entries; index tensors and dims of size 0 and 1); thorough adds the one-axis sweep on inner axes, all pairs of a reduced alphabet, "
                    "13x random volume. distinct non-trivial key = (stream, rank, kind of every component incl. sign / tensor-valued bound)",
               exhaustive=False,
               cases_per_stream=state["streams"], forms_converted=len(runner.forms),
@@ -586,7 +597,7 @@ def run(ctx):
               identity_form_refused=state["identity_refused"],
               outcomes={f"{a}:{b}:{c}": v for (a, b, c), v in sorted(oc.items())},
               different_tensor_by_class={f"{a}:{b}": v for (a, b), v in sorted(state["diff"].items())},
-              code_variant=variants)
+              code_variant=variants, adv_forms=adv_cover)
     if thorough:
         ctx.coqchk(["Props.C11"])
 
